@@ -284,3 +284,69 @@ func isNamedString(c *Ctx, v ssa.Value, pkg, name string) bool {
 	}
 	return false
 }
+
+// C18.R8 — writer/reader index agreement in the policy code: syncIngressInIPSet / syncEgressInIPSet index
+// policy.ingressRule.srcRules[i] with the index i of spec.ingress, so policyResult must append exactly one rule per
+// spec entry, on every path of its loop body.
+func rulePolicyRuleIndexAlignment(c *Ctx, rule string) {
+	fn := c.MustFn(rule, polPkg, "(*PolicyManager).policyResult")
+	if fn == nil {
+		return
+	}
+	prs := calls(fn, "(*PolicyManager).peerRule")
+	if len(prs) != 2 {
+		c.undecided(rule, fn, "peerRule", nil, fmt.Sprintf("expected 2 peerRule calls (ingress, egress), found %d", len(prs)))
+		return
+	}
+	for _, pr := range prs {
+		hdr := loopHeaderOf(pr)
+		var apps []ssa.Instruction
+		allInstrs(fn, func(in ssa.Instruction) {
+			st, ok := in.(*ssa.Store)
+			if !ok {
+				return
+			}
+			fa, ok := st.Addr.(*ssa.FieldAddr)
+			if !ok {
+				return
+			}
+			f := fieldName(fa.X.Type(), fa.Field)
+			if (f == "srcRules" || f == "dstRules") && loopHeaderOf(st) == hdr && hdr != nil {
+				apps = append(apps, st)
+			}
+		})
+		ok := hdr != nil && len(apps) == 1
+		if ok {
+			r := c.reachAfter(pr, newCut().instr(apps...))
+			if r.has(pr) {
+				ok = false // next iteration reachable without appending
+			}
+			for _, ret := range returns(fn) {
+				if r.has(ret) {
+					ok = false
+				}
+			}
+		}
+		c.ob(rule, fn, "one rule is appended per spec entry, on every path of the loop body", pr, ok, "after peerRule(..) every path to the next iteration / to the return passes the append to srcRules/dstRules (the readers index these slices with the spec index)")
+	}
+	// readers index with the range index over the spec list
+	for _, name := range []string{"(*PolicyManager).syncIngressInIPSet", "(*PolicyManager).syncEgressInIPSet"} {
+		rd := c.MustFn(rule, polPkg, name)
+		if rd == nil {
+			continue
+		}
+		n, okI := 0, true
+		allInstrs(rd, func(in ssa.Instruction) {
+			ia, ok := in.(*ssa.IndexAddr)
+			if !ok || !(pathEndsWith(ia.X, "srcRules") || pathEndsWith(ia.X, "dstRules")) {
+				return
+			}
+			n++
+			// the index is the rangeindex phi(+1) of the loop over np.Spec.Ingress / Egress
+			if !dependsOn(ia.Index, func(x ssa.Value) bool { ph, isPhi := x.(*ssa.Phi); return isPhi && ph.Comment == "rangeindex" }) {
+				okI = false
+			}
+		})
+		c.ob(rule, rd, "rules are indexed with the spec index", nil, okI && n > 0, fmt.Sprintf("%d index expressions into srcRules/dstRules, each with the loop index over the spec's rule list", n))
+	}
+}
